@@ -35,8 +35,15 @@ def world():
             R("rshare_min", "s-share", "min", 0, "valid", "P1"),
             R("rpx5_p2", "s-px5", "prefix", 5, "valid", "P2"),
             R("robfs_p2", "s-obfs-b", "obfs4", 0, "valid", "P2"),
-            R("rnil", "s-nil", "prefix", 0, "valid", "P3", nil_params=True)]
-    return {"phantoms": {"P1": "192.122.190.10", "P2": "192.122.190.11", "P3": "192.122.190.12", "P0": "192.122.190.9"}, "regs": regs}
+            R("rnil", "s-nil", "prefix", 0, "valid", "P3", nil_params=True),
+            # IPv6 phantoms: two populated ones and an empty one (V6c)
+            R("rmin6", "s-min6", "min", 0, "valid", "V6a"),
+            R("rpx6", "s-px6", "prefix", 1, "valid", "V6a"),
+            R("robfs6", "s-obfs6", "obfs4", 0, "valid", "V6b"),
+            R("rmin6b", "s-min6b", "min", 0, "valid", "V6b"),
+            R("rtr6", "s-tr6", "min", 0, "tracked", "V6b")]
+    return {"phantoms": {"P1": "192.122.190.10", "P2": "192.122.190.11", "P3": "192.122.190.12", "P0": "192.122.190.9",
+                         "V6a": "2001:48a8:687f:1::a:1", "V6b": "2001:48a8:687f:1::b:2", "V6c": "2001:48a8:687f:1::c:3"}, "regs": regs}
 
 
 def reorder(w, how, rng):
@@ -64,14 +71,14 @@ def gen_cases(ctx, thorough, w=None, tag="", sections=(1, 2, 3, 4, 5)):
             cases.append(cc.case("c02%s-%d" % (tag, n[0]), dst, st, cuts, **kw))
     add.section = 1
 
-    px = {"rpx1": 1, "rpx0": 0, "rpx9": 9, "rshare_px": 3, "rpx5_p2": 5, "rtr_px": 4, "rexp_px": 2, "rnil": 0}
+    px = {"rpx1": 1, "rpx0": 0, "rpx9": 9, "rshare_px": 3, "rpx5_p2": 5, "rtr_px": 4, "rexp_px": 2, "rnil": 0, "rpx6": 1}
     home = {r["name"]: r["phantom"] for r in w["regs"]}
     # 1. unaltered genuine flights: to their own phantom (must match exactly that registration) and to every other phantom
     for r in w["regs"]:
         kw = {"from": r["name"], "early": 24, "late": 8}
         if r["transport"] == "prefix":
             kw["client_px"] = px[r["name"]]
-        for dst in ("P0", "P1", "P2", "P3"):
+        for dst in sorted(w["phantoms"]):
             add(cc.stream(**kw), [rng.randrange(1, 30)], dst=dst)
     add.section = 2
     # 2. produced for another transport / another prefix than the one registered
